@@ -4,8 +4,8 @@
 (*   pipefunc/map/xarray.py  xarray_dataset_from_results, load_xarray_...  *)
 (*   pipefunc/map/_mapspec.py mapspec_axes, trace_dependencies             *)
 (*                                                                         *)
-(* For a description d, inputs inp (den = MapDenote(d, inp)), a set S of   *)
-(* selected outputs and the switch li (load_intermediate):                 *)
+(* For a description d (A = Analysis(d)), inputs inp (den = MapDenote(d,   *)
+(* inp)), a set S of selected outputs and the switch li (load_intermediate):*)
 (*                                                                         *)
 (*  VARIABLES    every selected output is a data variable (unless the      *)
 (*               dataset has a coordinate of that name, see below) whose   *)
@@ -67,7 +67,6 @@ Dims(d, o) == IF HasSpecOutput(d, o)
 IsMappedOutput(d, n) == n \in AllOutputs(d) /\ HasMapInputs(d.funcs[FuncOf(d, n)])
 (* arrays that are mapped over but not themselves computed element-wise: root inputs and generator outputs *)
 LeafArrays(d)    == {sp.name : sp \in InSpecs(d)} \ {n \in AllOutputs(d) : IsMappedOutput(d, n)}
-InputLike(d, li) == {x \in LeafArrays(d) : x \notin AllOutputs(d) \/ li}
 
 (* the whole axes tuple of x reaches output o element-wise: some mapped input of o's function is x itself with  *)
 (* every axis named, or a mapped output that carries x and is consumed without reducing any axis of x           *)
@@ -97,22 +96,35 @@ Supported(d, inp) == /\ AxesConsistent(d) /\ LeavesAreArrays(d) /\ Unambiguous(d
                      /\ LeafArrays(d) \ AllOutputs(d) \subseteq PKeys(inp)
 
 ---------------------------------------------------------------------------
-(* 3. The dataset of the selected outputs S.                                *)
-Labelled(d, S)         == {o \in S : IsMappedOutput(d, o)}
-Group(d, o, li, ax)    == {x \in InputLike(d, li) : FullAxes(d, x) = ax /\ Carried(d, o, x)}
-AxisGroup(d, S, li, ax) == UNION {Group(d, o, li, ax) : o \in Labelled(d, S)}
-AxesTuples(d, S, li)   == {FullAxes(d, x) : x \in {y \in InputLike(d, li) : \E o \in Labelled(d, S) : Carried(d, o, y)}}
+(* The static analysis of a description, computed once: everything below is stated on it.                        *)
+Analysis(d) ==
+    LET outs   == AllOutputs(d)
+        mapped == {o \in outs : IsMappedOutput(d, o)}
+        leaves == LeafArrays(d)
+    IN  [outs    |-> outs, mapped |-> mapped, leaves |-> leaves,
+         axes    |-> [n \in ArrayNames(d) |-> FullAxes(d, n)],          \* mapspec_axes
+         dims    |-> [o \in outs |-> Dims(d, o)],
+         params  |-> [o \in outs |-> d.funcs[FuncOf(d, o)].params],
+         carried |-> {p \in mapped \X leaves : Carried(d, p[1], p[2])}]  \* <<output, input-like array>>
+
+---------------------------------------------------------------------------
+(* 3. The dataset of the selected outputs S (A = Analysis(d), li = load_intermediate).                           *)
+InputLike(A, li)        == {x \in A.leaves : x \notin A.outs \/ li}
+Labelled(A, S)          == S \cap A.mapped
+Group(A, o, li, ax)     == {x \in InputLike(A, li) : A.axes[x] = ax /\ <<o, x>> \in A.carried}
+AxisGroup(A, S, li, ax) == UNION {Group(A, o, li, ax) : o \in Labelled(A, S)}
+AxesTuples(A, S, li)    == {A.axes[p[2]] : p \in {q \in A.carried : q[1] \in S /\ q[2] \in InputLike(A, li)}}
 
 Singletons(G) == {{x} : x \in G}
 (* groups of inputs that one variable sees zipped on ax (rank >= 2: never combined) *)
-VarGroups(d, S, li, ax) == IF Len(ax) = 1 THEN {Group(d, o, li, ax) : o \in Labelled(d, S)} \ {{}}
-                           ELSE Singletons(AxisGroup(d, S, li, ax))
+VarGroups(A, S, li, ax) == IF Len(ax) = 1 THEN {Group(A, o, li, ax) : o \in Labelled(A, S)} \ {{}}
+                           ELSE Singletons(AxisGroup(A, S, li, ax))
 (* the per-dataset-axis reading: ONE index per axis *)
-CanonicalOn(d, S, li, ax) == IF Len(ax) = 1 THEN {AxisGroup(d, S, li, ax)} ELSE Singletons(AxisGroup(d, S, li, ax))
-CandidatesOn(d, S, li, ax) == VarGroups(d, S, li, ax) \cup CanonicalOn(d, S, li, ax)
+CanonicalOn(A, S, li, ax)  == IF Len(ax) = 1 THEN {AxisGroup(A, S, li, ax)} ELSE Singletons(AxisGroup(A, S, li, ax))
+CandidatesOn(A, S, li, ax) == VarGroups(A, S, li, ax) \cup CanonicalOn(A, S, li, ax)
 (* acceptable sets of coordinates (as groups of level names) on ax *)
-AcceptableOn(d, S, li, ax) == {C \in SUBSET CandidatesOn(d, S, li, ax) :
-                                  \A g \in VarGroups(d, S, li, ax) : \E c \in C : g \subseteq c}
+AcceptableOn(A, S, li, ax) == {C \in SUBSET CandidatesOn(A, S, li, ax) :
+                                  \A g \in VarGroups(A, S, li, ax) : \E c \in C : g \subseteq c}
 
 (* a coordinate: levels in alphabetical order (ord = all names in alphabetical order: TLC cannot compare strings), *)
 (* name = levels joined with ':'; the value of level x is den[x] (input or generator output), laid out on axes  *)
@@ -120,67 +132,70 @@ RECURSIVE JoinNames(_)
 JoinNames(s) == IF Len(s) = 1 THEN s[1] ELSE s[1] \o ":" \o JoinNames(Tail(s))
 CoordOf(ord, g, ax) == LET lv == SelectSeq(ord, LAMBDA n : n \in g)
                        IN  [name |-> JoinNames(lv), levels |-> lv, axes |-> ax]
-CandidateCoords(d, S, li, ord) == UNION {{CoordOf(ord, g, ax) : g \in CandidatesOn(d, S, li, ax)} : ax \in AxesTuples(d, S, li)}
-Coords(d, S, li, ord)          == UNION {{CoordOf(ord, g, ax) : g \in CanonicalOn(d, S, li, ax)} : ax \in AxesTuples(d, S, li)}
-Alternatives(d, S, li, ord)    == {[axes |-> ax, ok |-> {{CoordOf(ord, g, ax).name : g \in C} : C \in AcceptableOn(d, S, li, ax)}] :
-                                      ax \in AxesTuples(d, S, li)}
+CandidateCoords(A, S, li, ord) == UNION {{CoordOf(ord, g, ax) : g \in CandidatesOn(A, S, li, ax)} : ax \in AxesTuples(A, S, li)}
+Coords(A, S, li, ord)          == UNION {{CoordOf(ord, g, ax) : g \in CanonicalOn(A, S, li, ax)} : ax \in AxesTuples(A, S, li)}
+Alternatives(A, S, li, ord)    == {[axes |-> ax, ok |-> {{CoordOf(ord, g, ax).name : g \in C} : C \in AcceptableOn(A, S, li, ax)}] :
+                                      ax \in AxesTuples(A, S, li)}
 
 (* data variables: a selected output is a variable unless the dataset has a coordinate of that name (a dataset    *)
 (* cannot hold both; only a generator output that stands alone on its axis can be such a coordinate)             *)
 DataVarNames(S, coordnames) == S \ coordnames
-VarOf(d, o)                 == [name |-> o, dims |-> Dims(d, o)]
+VarOf(A, o)                 == [name |-> o, dims |-> A.dims[o]]
 
 ---------------------------------------------------------------------------
 (* 4. Selection.                                                            *)
 (* term T contains value v at parameter x: some application inside T of a function with parameter x got v there *)
 RECURSIVE ContainsAt(_, _, _, _)
-ContainsAt(d, T, x, v) ==
-    \/ T.f \in AllOutputs(d) /\ LET ps == d.funcs[FuncOf(d, T.f)].params
-                                IN  \E k \in DOMAIN ps : ps[k] = x /\ k <= Len(T.a) /\ T.a[k] = v
-    \/ \E k \in DOMAIN T.a : ContainsAt(d, T.a[k], x, v)
+ContainsAt(A, T, x, v) ==
+    \/ T.f \in A.outs /\ LET ps == A.params[T.f] IN \E k \in DOMAIN ps : ps[k] = x /\ k <= Len(T.a) /\ T.a[k] = v
+    \/ \E k \in DOMAIN T.a : ContainsAt(A, T.a[k], x, v)
 
-VarShape(d, den, o) == ShapeOf(den[o], Len(Dims(d, o)))
-(* key into variable o for "coordinate on ax at index k": the dimensions of ax that o has are fixed, the others whole *)
+VarShape(A, den, o) == ShapeOf(den[o], Len(A.dims[o]))
+RECURSIVE Indices(_)                           \* all index tuples of an array of this shape (= IndexSet, enumerated directly)
+Indices(shape) == IF Len(shape) = 0 THEN {<< >>}
+                  ELSE {<<n>> \o t : n \in 0..(Head(shape) - 1), t \in Indices(Tail(shape))}
+(* key into a variable with dimensions dims for "coordinate on ax at index k": the dimensions of ax that the      *)
+(* variable has are fixed, the others stay whole                                                                  *)
 SelKey(dims, ax, k) == [p \in DOMAIN dims |-> IF \E q \in DOMAIN ax : ax[q] = dims[p] THEN k[PosIn(ax, dims[p])] ELSE ALL]
 SelDims(dims, ax)   == SelectSeq(dims, LAMBDA a : \A q \in DOMAIN ax : ax[q] # a)
-SelVal(d, den, o, ax, k) == At(den[o], SelKey(Dims(d, o), ax, k))
+SelVal(A, den, o, ax, k) == At(den[o], SelKey(A.dims[o], ax, k))
 Agrees(dims, ax, k, t)   == \A p \in DOMAIN dims : \A q \in DOMAIN ax : ax[q] = dims[p] => t[p] = k[q]
 
 (* the variables a group g on ax labels: those into which every level is carried *)
-LabelledBy(d, S, li, g, ax) == {o \in Labelled(d, S) : g \subseteq Group(d, o, li, ax)}
-CoordShape(d, den, g, ax)   == ShapeOf(den[CHOOSE x \in g : TRUE], Len(ax))
+LabelledBy(A, S, li, g, ax) == {o \in Labelled(A, S) : g \subseteq Group(A, o, li, ax)}
+CoordShape(den, g, ax)      == ShapeOf(den[CHOOSE x \in g : TRUE], Len(ax))
 
 ---------------------------------------------------------------------------
 (* 5. Laws (checked by TLC per case in MC_XarrayLabels).                     *)
-(* variables have the rank of their dimensions; dimensions are the array's axes *)
-LawDims(d, den, S) == \A o \in S :
-    /\ HasSpecOutput(d, o) => (Dims(d, o) = FullAxes(d, o) /\ HasShape(den[o], VarShape(d, den, o)))
-    /\ \A k1, k2 \in DOMAIN Dims(d, o) : k1 # k2 => Dims(d, o)[k1] # Dims(d, o)[k2]
+(* variables have the rank of their dimensions; dimensions are the array's axes, pairwise different *)
+LawDims(d, A, den, S) == \A o \in S :
+    /\ HasSpecOutput(d, o) => (A.dims[o] = A.axes[o] /\ HasShape(den[o], VarShape(A, den, o)))
+    /\ \A k1, k2 \in DOMAIN A.dims[o] : k1 # k2 => A.dims[o][k1] # A.dims[o][k2]
 (* a coordinate fits every variable it labels: same size along each of its axes, all levels the same shape *)
-LawCoordFits(d, den, S, li) == \A ax \in AxesTuples(d, S, li) : \A g \in CandidatesOn(d, S, li, ax) :
-    LET sh == CoordShape(d, den, g, ax) IN
-    /\ \A x \in g : HasShape(den[x], sh) /\ RankOf(d, x) = Len(ax)
-    /\ \A o \in LabelledBy(d, S, li, g, ax) : \A q \in DOMAIN ax :
-           \E p \in DOMAIN Dims(d, o) : Dims(d, o)[p] = ax[q] /\ VarShape(d, den, o)[p] = sh[q]
+LawCoordFits(A, den, S, li) == \A ax \in AxesTuples(A, S, li) : \A g \in CandidatesOn(A, S, li, ax) :
+    LET sh == CoordShape(den, g, ax) IN
+    /\ \A x \in g : HasShape(den[x], sh) /\ Len(A.axes[x]) = Len(ax)
+    /\ \A o \in LabelledBy(A, S, li, g, ax) : \A q \in DOMAIN ax :
+           \E p \in DOMAIN A.dims[o] : A.dims[o][p] = ax[q] /\ VarShape(A, den, o)[p] = sh[q]
 (* the canonical reading is one of the accepted outcomes; so is "one coordinate per variable group" *)
-LawCanonicalAccepted(d, S, li) == \A ax \in AxesTuples(d, S, li) :
-    /\ CanonicalOn(d, S, li, ax) \in AcceptableOn(d, S, li, ax)
-    /\ VarGroups(d, S, li, ax) \in AcceptableOn(d, S, li, ax)
+LawCanonicalAccepted(A, S, li) == \A ax \in AxesTuples(A, S, li) :
+    /\ CanonicalOn(A, S, li, ax) \in AcceptableOn(A, S, li, ax)
+    /\ VarGroups(A, S, li, ax) \in AcceptableOn(A, S, li, ax)
 (* where every variable group on an axis is contained in one variable's group, the two readings name the same   *)
 (* full index                                                                                                     *)
-OneIndexPerAxes(d, S, li) == \A ax \in AxesTuples(d, S, li) : CanonicalOn(d, S, li, ax) \subseteq VarGroups(d, S, li, ax)
+OneIndexPerAxes(A, S, li) == \A ax \in AxesTuples(A, S, li) : CanonicalOn(A, S, li, ax) \subseteq VarGroups(A, S, li, ax)
 (* switching load_intermediate off removes exactly the levels that are pipeline outputs *)
-LawIntermediate(d, S) == \A ax \in AxesTuples(d, S, TRUE) :
-    /\ AxisGroup(d, S, FALSE, ax) = AxisGroup(d, S, TRUE, ax) \ AllOutputs(d)
-    /\ AxisGroup(d, S, FALSE, ax) \cap AllOutputs(d) = {}
+LawIntermediate(A, S) == \A ax \in AxesTuples(A, S, TRUE) :
+    /\ AxisGroup(A, S, FALSE, ax) = AxisGroup(A, S, TRUE, ax) \ A.outs
+    /\ AxisGroup(A, S, FALSE, ax) \cap A.outs = {}
 (* selection by coordinate value: the elements selected in a labelled variable contain that value at that parameter *)
-LawSelect(d, den, S, li) == \A ax \in AxesTuples(d, S, li) : \A g \in CandidatesOn(d, S, li, ax) :
-    \A o \in LabelledBy(d, S, li, g, ax) : \A k \in IndexSet(CoordShape(d, den, g, ax)) :
-        \A t \in IndexSet(VarShape(d, den, o)) : Agrees(Dims(d, o), ax, k, t) =>
-            \A x \in g : ContainsAt(d, At(den[o], t), x, At(den[x], k))
+LawSelect(A, den, S, li) == \A ax \in AxesTuples(A, S, li) : \A g \in CandidatesOn(A, S, li, ax) :
+    \A o \in LabelledBy(A, S, li, g, ax) : \A k \in Indices(CoordShape(den, g, ax)) :
+        \A t \in Indices(VarShape(A, den, o)) : Agrees(A.dims[o], ax, k, t) =>
+            \A x \in g : ContainsAt(A, At(den[o], t), x, At(den[x], k))
 (* ... and (inputs with pairwise distinct values, no unmapped side path) no other element does *)
-LawSelectExact(d, den, S, li) == \A ax \in AxesTuples(d, S, li) : \A g \in CandidatesOn(d, S, li, ax) :
-    \A o \in LabelledBy(d, S, li, g, ax) : \A k \in IndexSet(CoordShape(d, den, g, ax)) :
-        \A t \in IndexSet(VarShape(d, den, o)) : ~Agrees(Dims(d, o), ax, k, t) =>
-            \A x \in g : ~ContainsAt(d, At(den[o], t), x, At(den[x], k))
+LawSelectExact(A, den, S, li) == \A ax \in AxesTuples(A, S, li) : \A g \in CandidatesOn(A, S, li, ax) :
+    \A o \in LabelledBy(A, S, li, g, ax) : \A k \in Indices(CoordShape(den, g, ax)) :
+        \A t \in Indices(VarShape(A, den, o)) : ~Agrees(A.dims[o], ax, k, t) =>
+            \A x \in g : ~ContainsAt(A, At(den[o], t), x, At(den[x], k))
 =============================================================================
